@@ -11,7 +11,7 @@ CONSTANTS
   LegacyHandleClose = FALSE
   MutUnregBeforeDone = FALSE
   MutIsClosedInRunHandlers = FALSE
-  MutSkipStoppedWhenClosing = FALSE
+  MutSkipStoppedWhenClosing = TRUE
   LegacySecondCloseNil = FALSE
 INVARIANTS NoStuck Graceful ErrorOnlyOnTimeout NoPanic RunAfterClose SubClosedAtEnd DroppedNotHandled
 PROPERTIES AllReturn StoppedCloses
